@@ -913,10 +913,17 @@ pub fn parse(lex_tokens: &Vec<LexerToken>) -> Result<ParseResult, CompilerError>
                     // a block written after a suffix-operator expression holds that expression as its left child
                     // (it is not listed by a value or bracket the way `5 [1]` and `(5) [1]` are): what follows
                     // composes with the suffix operator, the block keeps its place in the tree
+                    // (a run of such blocks hangs left child by left child from the suffix operator)
+                    let mut trailed = node.left;
+                    while let Some(block) = trailed.and_then(|left| nodes.get(left)).filter(|left: &&ParseNode| left.get_definition() == Definition::SideEffect && node.get_definition() == Definition::SideEffect) {
+                        trailed = block.left;
+                    }
                     let trails_suffix = node.get_definition() == Definition::SideEffect
                         && last_left != under_group
-                        && node.left.and_then(|left| nodes.get(left)).map(|left: &ParseNode| left.secondary_definition == SecondaryDefinition::UnarySuffix).unwrap_or(false)
-                        && !node.parent.and_then(|parent| nodes.get(parent)).map(|parent: &ParseNode| parent.secondary_definition == SecondaryDefinition::StartGrouping).unwrap_or(false);
+                        && trailed.and_then(|left| nodes.get(left)).map(|left: &ParseNode| left.secondary_definition == SecondaryDefinition::UnarySuffix).unwrap_or(false)
+                        // a block attached after a bracket that has already closed is listed by that bracket
+                        && !(node.parent != under_group
+                            && node.parent.and_then(|parent| nodes.get(parent)).map(|parent: &ParseNode| parent.secondary_definition == SecondaryDefinition::StartGrouping).unwrap_or(false));
 
                     if trails_suffix {
                         previous_second_def = SecondaryDefinition::UnarySuffix;
